@@ -20,7 +20,7 @@ RULE = ('(construct) every length 1..300 (quick) / 1..4096 (thorough) x a list o
         'space flag, refusal of a repeated transform. Non-trivial = length not a power of two, or a setter history with '
         '>=2 setter calls including set_length, or a transform case with a non-constant array; distinct = spec hash.')
 ASSUMPTIONS = ['round-trip tolerance 16*eps*(log2 N+2)*||r f||_2/r_i + 16 eps |f_i| (FFT backward-error bound), never an absolute number',
-               'length >= 1, spacing > 0 finite; arrays real, finite, |entries| <= 1e3 times the scale']
+               'length >= 1, spacing > 0 finite; arrays real, finite, |entries| between 1e-12 and 1e3 times an overall factor 1e-100 .. 1e100 (squares stay representable: no underflow in the transform or in the bound)']
 EPS = np.finfo(float).eps
 K_ROUND = 16.0
 
@@ -276,6 +276,8 @@ class Transforms(Sub):
             'f': specs.array_desc(), 'g': specs.array_desc(),
             'a': specs.signed(-6, 2), 'b': specs.signed(-6, 2),
             'rank': st.integers(1, 4), 'm': specs.array_desc(),
+            # overall magnitude of the arrays: the transforms are linear, so 1e-100 .. 1e100 must behave like O(1)
+            'scale_exp': st.sampled_from([0, 0, 0, -100, 100]),
         })
 
     def check(self, spec):
@@ -287,8 +289,9 @@ class Transforms(Sub):
         if not build.grid_ok(dom):
             out.skipped = 'grid-point-count-wrong(judged by construct)'
             return out
-        f = build.array(spec['f'], n)
-        g = build.array(spec['g'], n)
+        mag = 10.0 ** spec.get('scale_exp', 0)
+        f = build.array(spec['f'], n) * mag
+        g = build.array(spec['g'], n) * mag
         a, b = spec['a'], spec['b']
         r0, k0 = dom.r.copy(), dom.k.copy()
         f0 = f.copy()
@@ -375,7 +378,7 @@ class Transforms(Sub):
                             if not np.array_equal(MB.data[:, i, j], vec(np.ascontiguousarray(upper[:, i, j])), equal_nan=True):
                                 out.fail(sig + 'matrix-vs-vector', 'pair (%d,%d) of a nearly symmetric array is not the transform of its (a<=b) entry' % (i, j))
         out.nontrivial = bool(np.ptp(f) > 0) and n >= 2
-        out.label('rank=%d' % rank, 'pow2' if (n & (n - 1)) == 0 else 'non-pow2', 'via-' + ('dr' if 'dr' in spec['domain'] else 'dk'))
+        out.label('rank=%d' % rank, 'scale=1e%d' % spec.get('scale_exp', 0), 'pow2' if (n & (n - 1)) == 0 else 'non-pow2', 'via-' + ('dr' if 'dr' in spec['domain'] else 'dk'))
         return out
 
 
